@@ -23,9 +23,29 @@ def draw_hash(rng, m_hint=8):
     return {"hash": rng.weighted(HASH_WEIGHTS), "hseed": rng.below(1 << 16), "squeeze": rng.between(1, max(1, min(4, m_hint)))}
 
 
-def api_add(obj, key, alt=False, n=None, force=None, tracked=False, hasher=None, longer=0):
-    """add through one of the two public spellings: add(key, ...) or add_alt(hashes(key), ...).  Default arguments
-    are left to the library whenever the value asked for is the documented default."""
+def _kwcall(obj, name, **kw):
+    """call a public method with its arguments spelled by their documented names"""
+    try:
+        return getattr(obj, name)(**kw)
+    except TypeError as e:
+        if "keyword argument" in str(e) and e.__traceback__.tb_next is None:
+            raise Violation("documented_keyword_refused", f"{type(obj).__name__}.{name}({', '.join(k + '=...' for k in kw)}) "
+                                                          f"raised TypeError: {e}",
+                            {"class": type(obj).__name__, "op": name})
+        raise
+
+
+def api_add(obj, key, alt=False, n=None, force=None, tracked=False, hasher=None, longer=0, buf=None):
+    """add through one of the public spellings: add(key, ...) or add_alt(hashes(key), ...), arguments positional or
+    (alt == "kw" / "altkw") by their documented names.  Default arguments are left to the library whenever the value
+    asked for is the documented default."""
+    if alt == "kw":
+        kw = {"key": key}
+        if n is not None:
+            kw["num_els"] = n
+        if force is not None:
+            kw["force"] = force
+        return _kwcall(obj, "add", **kw)
     if not alt:
         if n is not None:
             return obj.add(key, n)
@@ -36,13 +56,27 @@ def api_add(obj, key, alt=False, n=None, force=None, tracked=False, hasher=None,
     if longer:
         # a list computed once at a larger depth (strategies are prefix-stable): plain Bloom filters use its prefix
         hs = (hasher or obj).hashes(key, len(hs) + longer)
-    args = ([key] if tracked else []) + [hs]
-    if n is not None and n != 1:
-        args.append(n)
-    if force:
-        args.append(True)
+    if buf is not None:
+        # the caller keeps ONE list as a scratch buffer and refills it in place for every call
+        buf[:] = hs
+        hs = buf
     mine = list(hs)
-    r = obj.add_alt(*args)
+    if alt == "altkw":
+        kw = {"hashes": hs}
+        if tracked:
+            kw["key"] = key
+        if n is not None and n != 1:
+            kw["num_els"] = n
+        if force:
+            kw["force"] = True
+        r = _kwcall(obj, "add_alt", **kw)
+    else:
+        args = ([key] if tracked else []) + [hs]
+        if n is not None and n != 1:
+            args.append(n)
+        if force:
+            args.append(True)
+        r = obj.add_alt(*args)
     _caller_list_intact(hs, mine, "add_alt", obj)
     return r
 
@@ -57,17 +91,29 @@ def _caller_list_intact(hs, mine, what, obj):
 
 
 def api_remove(obj, key, n, alt=False, tracked=False):
+    if alt == "kw":
+        return _kwcall(obj, "remove", key=key, num_els=n)
     if not alt:
         return obj.remove(key, n)
     hs = obj.hashes(key)
-    args = ([key] if tracked else []) + [hs] + ([n] if n != 1 else [])
     mine = list(hs)
-    r = obj.remove_alt(*args)
+    if alt == "altkw" and (tracked or type(obj).__name__ != "HeavyHitters"):
+        kw = {"hashes": hs}
+        if tracked:
+            kw["key"] = key
+        if n != 1:
+            kw["num_els"] = n
+        r = _kwcall(obj, "remove_alt", **kw)
+    else:
+        args = ([key] if tracked else []) + [hs] + ([n] if n != 1 else [])
+        r = obj.remove_alt(*args)
     _caller_list_intact(hs, mine, "remove_alt", obj)
     return r
 
 
 def api_check(obj, key, alt=False, hasher=None, longer=0):
+    if alt == "kw":
+        return _kwcall(obj, "check", key=key)
     if not alt:
         return obj.check(key)
     h = hasher or obj
@@ -75,9 +121,14 @@ def api_check(obj, key, alt=False, hasher=None, longer=0):
     if longer:
         hs = h.hashes(key, len(hs) + longer)
     mine = list(hs)
-    r = obj.check_alt(hs)
+    r = _kwcall(obj, "check_alt", hashes=hs) if alt == "altkw" else obj.check_alt(hs)
     _caller_list_intact(hs, mine, "check_alt", obj)
     return r
+
+
+def set_op(x, name, y, kw=False):
+    """union / intersection / jaccard_index / join / merge with the operand positional or as `second=`."""
+    return _kwcall(x, name, second=y) if kw else getattr(x, name)(y)
 
 
 class Env:
